@@ -97,6 +97,58 @@ def decoder_slot_rules(rep, ctx, mod, prefix=""):
                       function=cd.cname, obj="release-" + f)
 
 
+def push_pairing_rules(rep, ctx, mod, own, owning, lib_fns, prefix=""):
+    """the converse of R5, path by path: a header that is linked into an owning list of the reader while the basic reader still owns it
+    (it will be released at the next advance) must have received its own reference on every path that returns with the link in place -
+    otherwise the list is left holding a pointer to freed memory"""
+    rid = rep.rule(prefix + "R5b", "a borrowed header linked into dir_stack / deferred_symlinks gets lha_file_header_add_ref on every path from the link to a return", 2)
+    n = 0
+    for fn in lib_fns:
+        M = Matcher(fn)
+        F = None
+        for st in fn.insts():
+            if st.op != "store":
+                continue
+            flds = own._addr_fields(fn, st.ops[1], set())
+            lists = [fo for fo in flds if fo in owning and fo[0] == RD and fo[1] in ("dir_stack", "deferred_symlinks")]
+            if not lists:
+                continue
+            v = M.strip(st.ops[0], ("bitcast",))
+            dv = fn.defn(v)
+            if is_const(st.ops[0]) or dv is None:
+                continue
+            # unlinking (the stored value comes out of a list link) is not a push
+            if not dv.is_param and dv.op == "load" and any(fo[1] == "_next" or fo in lists for fo in own._addr_fields(fn, dv.ops[0], set())):
+                continue
+            n += 1
+            F = F or ctx.facts(fn)
+
+            def same(a):
+                a = M.strip(a, ("bitcast",))
+                if a == v:
+                    return True
+                da = fn.defn(a)
+                return (da is not None and not da.is_param and not dv.is_param and da.op == "load" and dv.op == "load"
+                        and own._addr_fields(fn, da.ops[0], set()) == own._addr_fields(fn, dv.ops[0], set()) and bool(own._addr_fields(fn, da.ops[0], set())))
+            refs = [c for c in fn.calls("lha_file_header_add_ref") if c.ops and same(c.ops[0])]
+            cut = {(c.block.id, t) for c in refs for t in fn.blocks[c.block.id].succs}
+            before = any((c.block.id == st.block.id and c.idx < st.idx) for c in refs) or (bool(refs) and st.block.id != 0 and not F.reaches_avoiding(0, st.block.id, cut)
+                                                                                            and not any(c.block.id == st.block.id for c in refs))
+            after_same_block = any(c.block.id == st.block.id and c.idx > st.idx for c in refs)
+            bad = []
+            if not before and not after_same_block:
+                for r in rets(fn):
+                    if any(c.block.id == r.block.id for c in refs):
+                        continue
+                    if r.block.id == st.block.id or F.reaches_avoiding(st.block.id, r.block.id, cut):
+                        bad.append(r)
+            rep.check(rid, not bad, "%s: header linked into %s keeps a reference of its own" % (fn.cname, "/".join(sorted(fo[1] for fo in lists))), st.where(),
+                      "a return (line %s) is reachable after the link without lha_file_header_add_ref on the linked header: the basic reader frees it at the next advance and the list dangles" % (
+                          ", ".join(str(r.line()) for r in bad)) if bad else None, function=fn.cname, obj="push")
+    if n == 0:
+        rep.broken(rid, "no push onto dir_stack / deferred_symlinks found")
+
+
 def run(tier, seed):
     rep = Report("C20", tier, "other",
                  "Static ownership analysis of lib/: (R1) each allocation result is NULL-checked before any dereference; (R2) a "
@@ -357,6 +409,8 @@ def run(tier, seed):
                                           and own._addr_fields(fn, da.ops[0], set()) == own._addr_fields(fn, dv.ops[0], set()) and own._addr_fields(fn, da.ops[0], set())):
                                 paired = True
                 rep.check(r5, paired, "%s: add_ref paired with a store into an owning list" % fn.cname, c.where(), None, function=fn.cname, obj="add_ref")
+
+        push_pairing_rules(rep, ctx, mod, own, owning, lib_fns)
 
         # ---- R6 dropped failure status ------------------------------------------------------------------------------------------
         r6 = rep.rule("R6", "the status of a lib/ function that reports allocation failure by its return value is not dropped by its callers", 10)
